@@ -150,3 +150,42 @@ Theorem C18_loops_is_source :
 Proof. exact loops_is_source. Qed.
 Print Assumptions C18_loops_is_source.
 
+
+Theorem S_end_loop_is_source :
+  forall (NN : Num) (c : cfg NN) (st : ost NN), let r := gen_end_loop NN c (score_cur NN st)
+    (score_start NN st) (kt NN st) (conv_count NN st) (ratio NN st) (loop_rej NN st) in end_loop
+    NN c st = {| params := params NN st; handles := handles NN st; score_cur := score_cur NN st;
+    kt := fst (fst (snd r)); ratio := snd (snd r); conv_count := snd (fst (snd r)); loop_rej :=
+    0; score_start := score_cur NN st; loops_done := N.succ (loops_done NN st); j := 0; calls :=
+    calls NN st; fin := fst r || (loops_of (steps NN c) (inner NN c) <=? N.succ (loops_done NN
+    st))%N; converged := fst r; bad_index := false |}.
+Proof. exact end_loop_is_source. Qed.
+Print Assumptions S_end_loop_is_source.
+
+
+Theorem S_init_is_source :
+  forall (NN : Num) (c : cfg NN) (ps : list (carrier NN)) (hs : list (handle NN)) (s0 : carrier
+    NN), init NN c ps hs s0 = {| params := ps; handles := hs; score_cur := s0; kt := fst
+    (gen_init NN c); ratio := snd (gen_init NN c); conv_count := gen_init_count; loop_rej := 0;
+    score_start := s0; loops_done := 0; j := 0; calls := 1; fin := (gen_loops NN c =? 0)%N;
+    converged := false; bad_index := false |}.
+Proof. exact init_is_source. Qed.
+Print Assumptions S_init_is_source.
+
+Theorem S_inner_count_is_source :
+  forall (NN : Num) (fexp : carrier NN -> carrier NN) (score : N -> list (carrier NN) -> option
+    (carrier NN)) (c : cfg NN) (st : ost NN) (d : draw NN), advance NN fexp score c st d = (if
+    fin NN st then st else let st1 := mc_step NN fexp score c st d in if bad_index NN st1 then
+    st1 else if (j NN st1 =? gen_inner_count NN c)%N then end_loop NN c st1 else st1).
+Proof. exact inner_count_is_source. Qed.
+Print Assumptions S_inner_count_is_source.
+
+Theorem S_loop_head_is_source :
+  forall (NN : Num) (c : cfg NN) (st : ost NN), (score_start NN (end_loop NN c st), loop_rej NN
+    (end_loop NN c st)) = gen_loop_head NN (score_cur NN (end_loop NN c st)) /\ gen_loop_head NN
+    (score_cur NN (init NN c (params NN st) (handles NN st) (score_cur NN st))) = (score_start
+    NN (init NN c (params NN st) (handles NN st) (score_cur NN st)), loop_rej NN (init NN c
+    (params NN st) (handles NN st) (score_cur NN st))).
+Proof. exact loop_head_is_source. Qed.
+Print Assumptions S_loop_head_is_source.
+
